@@ -122,6 +122,11 @@ def outcome_class(s):
     return re.sub(r"\(.*", "", s)
 
 
+def is_explicit_merge_unwrap(real):
+    """the harness prints `PANIC(@file:line message)`: an `unwrap()` of an Err in wac-graph's graph.rs (resolve_imports)"""
+    return real.startswith("PANIC") and "Result::unwrap()" in real and "wac-graph/src/graph.rs" in real
+
+
 def correspondence(row):
     """list of human-readable disagreements between the model and the implementation for one composition"""
     out = []
@@ -158,12 +163,12 @@ def correspondence(row):
         elif rc == "E:ImportTypeMergeConflict":
             # PANIC(BadNode) is the model's rendering of the `.unwrap()` on an explicit import's failed merge (current code);
             # a repaired implementation reports ImportTypeMergeConflict there
-            if mc not in ("ok", "E:ImportTypeMergeConflict", "PANIC"):
+            if mc not in ("ok", "E:ImportTypeMergeConflict", "PANIC", "ORACLE"):
                 out.append(f"{m}: real merge conflict, model says {model}")
-        elif rc == "PANIC" and "unwrap()" in real and ("cannot be merged" in real or "mismatched" in real or "merge" in real):
+        elif rc == "PANIC" and is_explicit_merge_unwrap(real):
             # resolve_imports `.unwrap()`: the model predicts it for kinds of different classes (PANIC(BadNode)); a type-level
-            # conflict between kinds of one class is not modelled (model: ok)
-            if mc not in ("PANIC", "ok"):
+            # conflict between kinds of one class is not modelled (model: ok, or ORACLE because there is no real log to replay)
+            if mc not in ("PANIC", "ok", "ORACLE"):
                 out.append(f"{m}: real unwrap panic, model says {model}")
         elif rc != mc:
             out.append(f"{m}: encode outcome differs: real {real[:80]} model {model[:80]}")
